@@ -281,6 +281,65 @@ func famStress(o *Out, r R, tier string) {
 	wg.Wait()
 	msg, _ := bad.Load().(string)
 	o.emitDirect("conc-stress", msg == "", fmt.Sprintf("%d responses, %d writer cycles; %s", nresp.Load(), ncycles.Load(), msg))
+	stressWriters(o, dur/2, &q)
+}
+
+// stressWriters: SetDebug racing with Reconfigure(nil)/Reconfigure(&Q) from different goroutines. Every method is
+// atomic, so at every instant the pair must be one that some sequential order of the calls produces; in particular
+// a passthrough middleware never has debug mode on (invariant of the documented state machine).
+func stressWriters(o *Out, dur time.Duration, q *cors.Config) {
+	m := new(cors.Middleware)
+	var bad atomic.Value
+	var nobs atomic.Int64
+	stop := make(chan struct{})
+	var wg sync.WaitGroup
+	wg.Add(4)
+	go func() {
+		defer wg.Done()
+		for i := 0; ; i++ {
+			select {
+			case <-stop:
+				return
+			default:
+			}
+			m.SetDebug(i%3 != 0)
+		}
+	}()
+	go func() {
+		defer wg.Done()
+		for {
+			select {
+			case <-stop:
+				return
+			default:
+			}
+			cc := cloneCfg(*q)
+			m.Reconfigure(&cc)
+			m.Reconfigure(nil)
+		}
+	}()
+	for g := 0; g < 2; g++ {
+		go func() {
+			defer wg.Done()
+			for {
+				select {
+				case <-stop:
+					return
+				default:
+				}
+				configured, debug := cors.VerifState(m)
+				nobs.Add(1)
+				if !configured && debug {
+					bad.Store("a passthrough middleware was observed with debug mode on (SetDebug and Reconfigure(nil) are not atomic with respect to each other)")
+				}
+			}
+		}()
+	}
+	time.Sleep(dur)
+	close(stop)
+	wg.Wait()
+	msg, _ := bad.Load().(string)
+	o.emitDirect("conc-stress-writers", msg == "", fmt.Sprintf("%d observations; %s", nobs.Load(), msg))
 }
 
 // ======================= C12: aliasing and request history =======================
